@@ -43,7 +43,8 @@ async def async_map_unordered(
         inputs = input
     else:
         input_batches = batched(input, batch_size)
-        inputs = next(input_batches)
+        # an empty input has no first batch
+        inputs = next(input_batches, ())
 
     task_create_tstamp = time.time()
     tasks = {task: i for i, task in create_futures_func(inputs, name=name, **kwargs)}
